@@ -906,6 +906,7 @@ def sweep_entries(rng_seed):
         add("utils.%s/2d" % nm, f, pos2.copy())
         add("utils.%s/3d" % nm, f, np.abs(x3) + 1)
         add("utils.%s/4d-strided" % nm, f, (np.abs(R.randn(2, 2, 3, 32)) + 1)[..., ::2])
+    add("utils.unwrap_phases/jumps", tsu.unwrap_phases, np.array([0., 3.5, 7., 0.5, -3., 4.]))
     add("utils.zero_pad", tsu.zero_pad, x2.copy(), 4)
     add("utils.rescale_arr", tsu.rescale_arr, x2.copy(), 0, 1)
     add("utils.thresholded_arr", tsu.thresholded_arr, pos2.copy(), 1.2, 1.8)
@@ -977,6 +978,114 @@ def sweep_entries(rng_seed):
     return E
 
 
+SWEEP_DTYPES = ["float64", "float32", "complex128", "complex64", "int64", "int32", "bool"]
+SWEEP_LAYOUTS = ["C", "F", "strided", "reversed"]
+
+
+def mk_array(R, dtype, shape, layout):
+    """a seeded array of the given dtype in the given memory layout (shape = logical shape)"""
+    shp = tuple(shape[:-1]) + (shape[-1] * 2,) if layout == "strided" else tuple(shape)
+    a = R.randn(*shp)
+    if dtype.startswith("complex"):
+        a = a + 1j * R.randn(*shp)
+    if dtype.startswith("int"):
+        a = np.round(a * 10)
+    if dtype == "bool":
+        a = a > 0
+    a = np.ascontiguousarray(a.astype(dtype))
+    if layout == "F":
+        a = np.asfortranarray(a)
+    elif layout == "strided":
+        a = a[..., ::2]
+    elif layout == "reversed":
+        a = a[..., ::-1]
+    return a
+
+
+def dtype_matrix(rng_seed, quick):
+    """every swept entry point that takes data arrays x every dtype x every memory layout x its size
+    option (None / == length / > length): library routines (fftpack, lfilter, convolve, ...) decide
+    between copying and working in place by dtype, contiguity and size, so the trusted hypothesis of the
+    calculus - out-of-place library routines do not write their inputs - is probed exactly here"""
+    import nitime.algorithms as tsa
+    import nitime.utils as tsu
+    R = np.random.RandomState(rng_seed + 7)
+    n = 32
+    shapes = {"1d": (n,), "2d": (3, n)} if quick else {"1d": (n,), "2d": (3, n), "3d": (2, 3, n)}
+    layouts = ["C", "strided"] if quick else SWEEP_LAYOUTS
+    ij = (np.array([0, 1]), np.array([1, 2]))
+
+    def welch(N):
+        return {"this_method": "welch", "NFFT": N if N else 16}
+    # (name, callable taking (x, N) -> (f, args, kwargs), has a size option, accepted shapes)
+    T = [
+        ("algorithms.periodogram", lambda x, N: (tsa.periodogram, (x,), {"N": N}), True, None),
+        ("algorithms.periodogram/twosided", lambda x, N: (tsa.periodogram, (x,), {"N": N, "sides": "twosided"}), True, None),
+        ("algorithms.periodogram_csd", lambda x, N: (tsa.periodogram_csd, (x,), {"NFFT": N}), True, None),
+        ("algorithms.multi_taper_psd", lambda x, N: (tsa.multi_taper_psd, (x,), {"NFFT": N}), True, None),
+        ("algorithms.multi_taper_psd/adaptive-jk", lambda x, N: (tsa.multi_taper_psd, (x,), {"NFFT": N, "adaptive": True, "jackknife": True}), True, None),
+        ("algorithms.multi_taper_csd", lambda x, N: (tsa.multi_taper_csd, (x,), {"NFFT": N}), True, ("2d",)),
+        ("algorithms.get_spectra/welch", lambda x, N: (tsa.get_spectra, (x,), {"method": welch(N)}), True, ("2d", "3d")),
+        ("algorithms.get_spectra/periodogram_csd", lambda x, N: (tsa.get_spectra, (x,), {"method": {"this_method": "periodogram_csd", "NFFT": N}}), True, ("2d",)),
+        ("algorithms.get_spectra/multi_taper_csd", lambda x, N: (tsa.get_spectra, (x,), {"method": {"this_method": "multi_taper_csd", "NFFT": N}}), True, ("2d",)),
+        ("algorithms.get_spectra_bi", lambda x, N: (tsa.get_spectra_bi, (x, x[..., ::-1].copy()), {"method": welch(N)}), True, ("1d",)),
+        ("algorithms.coherency", lambda x, N: (tsa.coherency, (x,), {"csd_method": welch(N)}), True, ("2d",)),
+        ("algorithms.coherence", lambda x, N: (tsa.coherence, (x,), {"csd_method": welch(N)}), True, ("2d",)),
+        ("algorithms.coherence_regularized", lambda x, N: (tsa.coherence_regularized, (x, 0.1, 0.1), {"csd_method": welch(N)}), True, ("2d",)),
+        ("algorithms.coherency_bavg", lambda x, N: (tsa.coherency_bavg, (x,), {"csd_method": welch(N)}), True, ("2d",)),
+        ("algorithms.coherence_partial", lambda x, N: (tsa.coherence_partial, (x, x[0].copy()), {"csd_method": welch(N)}), True, ("2d",)),
+        ("algorithms.coherency_phase_spectrum", lambda x, N: (tsa.coherency_phase_spectrum, (x,), {"csd_method": welch(N)}), True, ("2d",)),
+        ("algorithms.correlation_spectrum", lambda x, N: (tsa.correlation_spectrum, (x, x[..., ::-1].copy()), {}), False, ("1d",)),
+        ("algorithms.cache_fft", lambda x, N: (tsa.cache_fft, (x, ij), {"method": welch(N)}), True, ("2d",)),
+        ("algorithms.seed_corrcoef", lambda x, N: (tsa.seed_corrcoef, (x[0].copy(), x), {}), False, ("2d",)),
+        ("algorithms.AR_est_YW", lambda x, N: (tsa.AR_est_YW, (x, 3), {}), False, ("1d",)),
+        ("algorithms.AR_est_LD", lambda x, N: (tsa.AR_est_LD, (x, 3), {}), False, ("1d",)),
+        ("algorithms.MAR_est_LWR", lambda x, N: (tsa.MAR_est_LWR, (x, 2), {}), False, ("2d",)),
+        ("algorithms.boxcar_filter", lambda x, N: (tsa.boxcar_filter, (x,), {"ub": 0.2}), False, None),
+        ("algorithms.boxcar_filter/band", lambda x, N: (tsa.boxcar_filter, (x,), {"lb": 0.1, "ub": 0.3}), False, None),
+        ("algorithms.freq_domain_xcorr", lambda x, N: (tsa.freq_domain_xcorr, (x, (np.abs(x) > 1).astype(float), 5, 5), {}), False, ("1d",)),
+        ("algorithms.freq_domain_xcorr_zscored", lambda x, N: (tsa.freq_domain_xcorr_zscored, (x, (np.abs(x) > 1).astype(float), 5, 5), {}), False, ("1d",)),
+        ("algorithms.wfmorlet_fft", lambda x, N: (tsa.wfmorlet_fft, (0.1, 1.0, x), {}), False, ("1d",)),
+        ("algorithms.wlogmorlet_fft", lambda x, N: (tsa.wlogmorlet_fft, (0.1, 1.0, x), {}), False, ("1d",)),
+        ("algorithms.mtm_cross_spectrum", lambda x, N: (tsa.mtm_cross_spectrum, (x, x[..., ::-1].copy(), np.ones((x.shape[0],) + (1,) * (x.ndim - 1))), {}), False, ("2d", "3d")),
+        ("utils.tapered_spectra", lambda x, N: (tsu.tapered_spectra, (x, tsa.dpss_windows(x.shape[-1], 4, 4)[0]), {"NFFT": N}), True, None),
+        ("utils.circularize", lambda x, N: (tsu.circularize, (x,), {}), False, None),
+        ("utils.dB", lambda x, N: (tsu.dB, (x,), {}), False, None),
+        ("utils.zscore", lambda x, N: (tsu.zscore, (x,), {}), False, None),
+        ("utils.percent_change", lambda x, N: (tsu.percent_change, (x,), {}), False, None),
+        ("utils.autocov", lambda x, N: (tsu.autocov, (x,), {}), False, None),
+        ("utils.autocorr", lambda x, N: (tsu.autocorr, (x,), {}), False, None),
+        ("utils.crosscov", lambda x, N: (tsu.crosscov, (x, x[..., ::-1].copy()), {}), False, None),
+        ("utils.crosscov/debias", lambda x, N: (tsu.crosscov, (x, x[..., ::-1].copy()), {"debias": False, "normalize": False}), False, None),
+        ("utils.crosscorr", lambda x, N: (tsu.crosscorr, (x, x[..., ::-1].copy()), {}), False, None),
+        ("utils.fftconvolve", lambda x, N: (tsu.fftconvolve, (x, x[..., :5].copy()), {}), False, ("1d",)),
+        ("utils.autocov_vector", lambda x, N: (tsu.autocov_vector, (x,), {}), False, ("2d",)),
+        ("utils.crosscov_vector", lambda x, N: (tsu.crosscov_vector, (x, x[..., ::-1].copy()), {}), False, ("2d",)),
+        ("utils.zero_pad", lambda x, N: (tsu.zero_pad, (x, 4), {}), False, None),
+        ("utils.unwrap_phases", lambda x, N: (tsu.unwrap_phases, (x,), {}), False, ("1d",)),
+        ("utils.rescale_arr", lambda x, N: (tsu.rescale_arr, (x, 0, 1), {}), False, None),
+        ("utils.minmax_norm", lambda x, N: (tsu.minmax_norm, (x,), {}), False, None),
+        ("utils.thresholded_arr", lambda x, N: (tsu.thresholded_arr, (x, -0.5, 0.5), {}), False, None),
+        ("utils.adaptive_weights", lambda x, N: (tsu.adaptive_weights, (x, np.linspace(0.99, 0.8, x.shape[0]), "twosided"), {}), False, ("2d",)),
+        ("utils.jackknifed_sdf_variance", lambda x, N: (tsu.jackknifed_sdf_variance, (x, np.ones(x.shape[0])), {}), False, ("2d",)),
+        ("utils.detect_lines", lambda x, N: (tsu.detect_lines, (x, (4, 4)), {}), False, ("1d",)),
+    ]
+    for name, build, sized, shp in T:
+        for sl, shape in shapes.items():
+            if shp is not None and sl not in shp:
+                continue
+            for dt in SWEEP_DTYPES:
+                for lay in layouts:
+                    for N in ((None, shape[-1], shape[-1] + 8) if sized else (None,)):
+                        x = mk_array(R, dt, shape, lay)
+                        try:
+                            f, a, k = build(x, N)
+                        except Exception:  # noqa  (building a secondary argument failed for this dtype)
+                            continue
+                        k = {kk: vv for kk, vv in k.items() if vv is not None}
+                        yield ("%s/%s/%s/%s/N=%s" % (name, sl, dt, lay, N), f, a, k)
+
+
 def sweep_analyzers(rng_seed):
     """every analyzer class x every OneTimeProperty: the input series must not move"""
     import nitime.analysis as nta
@@ -985,10 +1094,14 @@ def sweep_analyzers(rng_seed):
     R = np.random.RandomState(rng_seed + 1)
     out = []
 
+    dts = ["float64", "complex128", "complex64", "float32", "int64"]
+    cur = ["float64"]
+
     def mk(sh=(3, 64)):
-        return ts.TimeSeries(R.randn(*sh), sampling_rate=10.)
+        return ts.TimeSeries(mk_array(R, cur[0], sh, "C"), sampling_rate=10.)
     classes = [c for n, c in sorted(vars(nta).items()) if inspect.isclass(c) and n.endswith("Analyzer") and n != "BaseAnalyzer"]
-    for c in classes:
+    for c, dt in [(c, dt) for c in classes for dt in dts]:
+        cur[0] = dt
         t = mk()
         extra = []
         try:
@@ -1016,7 +1129,7 @@ def sweep_analyzers(rng_seed):
             continue
         props = [n for k in type(a).__mro__ for n, v in vars(k).items() if isinstance(v, desc.OneTimeProperty)]
         for p in props:
-            out.append(("analysis.%s.%s" % (c.__name__, p), a, p, [t] + extra))
+            out.append(("analysis.%s.%s/%s" % (c.__name__, p, dt), a, p, [t] + extra))
     return out
 
 
@@ -1024,7 +1137,8 @@ def run_sweep(ctx):
     """before/after snapshots around every entry; returns (#entries, #raised, fails)"""
     fails = []
     n = nraise = 0
-    for name, f, a, k in sweep_entries(ctx.seed):
+    import itertools
+    for name, f, a, k in itertools.chain(sweep_entries(ctx.seed), dtype_matrix(ctx.seed, ctx.quick)):
         before = [bytes_snap(x) for x in a] + [bytes_snap(v) for v in k.values()]
         own = getattr(f, "__self__", None)
         own_b = bytes_snap(own) if own is not None and not inspect.ismodule(own) else None
@@ -1118,7 +1232,10 @@ def run(ctx):
         trusted=["out-of-place numpy/scipy routines (fft, diff, hstack, convolve, round, astype, binary operators) do not write to "
                  "their inputs; numpy's aliasing rules are as written in Model/Alias.v (asarray / view / copy / in-place operators), "
                  "checked only through the G and K comparisons",
-                 "byte snapshots (tobytes, shape, dtype, attribute values) and np.shares_memory as the observation of 'unchanged' and 'shares'"],
+                 "byte snapshots (tobytes, shape, strides, dtype, attribute values) and np.shares_memory as the observation of 'unchanged' and 'shares'",
+                 "the calculus takes 'out-of-place library routines (fftpack.fft, lfilter, convolve, ...) do not write their inputs' as a "
+                 "hypothesis; whether nitime calls them so that this holds (overwrite_x, dtype- and size-dependent in-place paths) is exactly "
+                 "what the dtype x memory-layout x size-option sweep probes, by observation only"],
         assumptions=["payloads are integers (float64 operands are integer-valued) with |value * unit factor| < 2^62: value arithmetic is "
                      "not the subject of C16", "TimeSeries metadata: only that the copy gets its own dict is checked (oracle); the dict is copied shallowly and is not modelled"],
         explanation=("Proved (Coq, all stores / values / operand kinds, both exits): the frame and copy-disjointness theorems for the "
